@@ -121,9 +121,27 @@ def tok(rng, x):
 
 
 def tok_value(t):
-    if t.startswith("F:"):
+    if t[:2] in ("F:", "I:", "L:", "P:"):
         return parse_rat(t[2:])
     return parse_rat(t)
+
+
+def kind_tok(rng, x):
+    """amount x handed to the constructor as int / float / stdlib Decimal /
+    Fraction / decimalfp Decimal, whichever can hold it exactly"""
+    kinds = ["", "F:"]
+    if x.denominator == 1:
+        kinds += ["I:", "I:"]
+    if Fraction(float(x)) == x and abs(x) < 10 ** 300:
+        kinds += ["L:", "L:"]
+    d = x.denominator
+    while d % 2 == 0:
+        d //= 2
+    while d % 5 == 0:
+        d //= 5
+    if d == 1:
+        kinds += ["P:"]
+    return rng.choice(kinds) + rat(x)
 
 
 def case_of(ctx, ops, tags):
